@@ -210,11 +210,18 @@ def run(tier, seed):
     rng = random.Random(seed)
     nm, nr = (20, 200) if tier == "quick" else (80, 1500)
     metrics = [draw_metric(rng) for _ in range(nm)]
+    # cells of special form - exactly orthogonal (cubic, tetragonal, orthorhombic), two right angles (each unique axis), hexagonal - with
+    # GENERAL rotations: a fast path for "all angles 90" or for a diagonal B is only right if it is right for every U
+    special = [[4, 4, 4, 0, 0, 0], [4, 4, 9, 0, 0, 0], [4, 9, 25, 0, 0, 0], [16, 9, 4, 0, 0, 0], [4, 9, 16, -2, 0, 0], [4, 9, 16, 0, 3, 0],
+               [4, 9, 16, 0, 0, -1], [4, 4, 9, 0, 0, -2], [6, 6, 6, 1, 1, 1], [1, 25, 4, 0, 0, 0]]
     rots = list(AXIS) + [draw_rotation(rng, 3 if tier == "quick" else 6) for _ in range(nr)]
     pairs = []
     for i, (p, q) in enumerate(rots):
         for m in rng.sample(metrics, 3 if tier == "quick" else 6):
             pairs.append([m, p, q])
+        if i % (4 if tier == "quick" else 1) == 0:
+            for m in rng.sample(special, 2):
+                pairs.append([m, p, q])
     mats = set()
     while len(mats) < (300 if tier == "quick" else 20000):
         M = tuple(tuple(rng.randint(-4, 4) for _ in range(3)) for _ in range(3))
